@@ -538,5 +538,10 @@ pub fn run(ctx: &Ctx) {
 pub fn replay(case: &Value) -> Check {
     let steps: Vec<CStep> = serde_json::from_value(case.clone()).map_err(|e| Failure::new("bad-replay", e.to_string()))?;
     let mut l = Local::default();
+    if std::env::var("HCV_C14_REFERENCE_ONLY").is_ok() {
+        // used by the watchdog to tell "this history hangs everywhere" from "a configuration hangs"
+        let (wd, rd) = (Disk::new(), Disk::new());
+        return run_config_ext(&wd, &rd, CacheCfg::Off, &steps, true).map(|_| ());
+    }
     run_case(&steps, true, true, &mut l)
 }
